@@ -424,6 +424,15 @@ def _rows_mix(orig, alt, rows: List[int]):
     return out
 
 
+def _row_differs(orig, alt, i: int) -> bool:
+    from tensordict import TensorDict
+    if isinstance(orig, (TensorDict, dict)):
+        return any(_row_differs(orig[k], alt[k], i) for k in orig.keys())
+    if isinstance(orig, tuple):
+        return any(_row_differs(o, a, i) for o, a in zip(orig, alt))
+    return not torch.equal(torch.as_tensor(orig)[i], torch.as_tensor(alt)[i])
+
+
 def _clone_batch(b):
     from tensordict import TensorDict
     if isinstance(b, TensorDict):
@@ -516,8 +525,13 @@ def run_diff(variant: str, family: str, *, seed: int, gamma: Optional[float] = N
         out = []
         for j, bid in enumerate(bids):
             b = zoo.make_batch(agent, algo, bid, B=B)
-            alt = zoo.make_batch(agent, algo, bid + 500, B=B)
             pr = Proto(b)
+            for k in range(20):                               # an alternative batch whose next_obs differs on every perturbed row
+                alt = zoo.make_batch(agent, algo, bid + 500 + 37 * k, B=B)
+                if all(_row_differs(pr.get(b, "next_obs"), pr.get(alt, "next_obs"), i) for i in pert_rows[j]):
+                    break
+            else:
+                raise RuntimeError("no alternative next_obs found")
             dn = pr.get(b, "done")
             pat = torch.tensor([[float(x)] for x in done_pattern[j]])
             if multi:
@@ -631,7 +645,8 @@ def run_diff_rainbow_stub(*, N: int, vmin: int, B: int, n: int, nstep: bool, com
     for nm in names:                                                  # at least one done and one live row per batch
         rows = batches[nm]["rows"]
         rows[0] = (rows[0][0], rows[0][1], 1)
-        rows[1 % B] = (rows[1 % B][0], rows[1 % B][1], 0) if B > 1 else rows[0]
+        # the live control row: reward in the middle of the support, so that no target atom is clamped
+        rows[1] = (rows[1][0], Q * (vmin + (N - 1) // 2), 0)
     dflat = [r[2] for nm in names for r in batches[nm]["rows"]]
     cfg = {"algo": "RainbowDQN-stub" + ("-nstep" if nstep else "") + ("-combined" if combined else "") + ("-per" if per else ""),
            "family": "stub", "mode": "max", "g2": 1, "n": 1, "nsl": 1, "nal": 1, "seed": seed, "gamma": 0.5, "regularised": 0, "B": B,
@@ -650,6 +665,8 @@ def run_diff_rainbow_stub(*, N: int, vmin: int, B: int, n: int, nstep: bool, com
                     w = [0] * N
                     for _ in range(PDEN):
                         w[prng.randrange(N)] += 1
+                    if a == g and w == list(batches[nm]["rows"][i][0]):
+                        w = w[1:] + w[:1] if w[1:] + w[:1] != w else [PDEN] + [0] * (N - 1)
                     h.tpmf[kn][i, a] = torch.tensor(w, dtype=torch.float32) / PDEN
         idxs = torch.arange(B)
         wts = torch.tensor([[0.5 + 0.25 * (i % 3)] for i in range(B)])
@@ -665,7 +682,7 @@ def run_diff_rainbow_stub(*, N: int, vmin: int, B: int, n: int, nstep: bool, com
     evs = []
     base = None
     done_rows = {nm: [i for i, r in enumerate(batches[nm]["rows"]) if r[2] == 1] for nm in names}
-    ctl = {nm: [[i for i, r in enumerate(batches[nm]["rows"]) if r[2] == 0][0]] for nm in names}
+    ctl = {nm: [1] for nm in names}
     for what, pert in (("done-rows", done_rows), ("control", ctl)):
         ev = {"op": "diff", "learner": 1, "what": what, "d": dflat, "exc": "", "same_loss": False, "same_w": False,
               "pert": [j * B + i + 1 for j, nm in enumerate(names) for i in pert[nm]]}
@@ -881,39 +898,53 @@ def run_track(variant: str, family: str, ops, *, pf: int = 1, tau: float = 0.5, 
 
 def script(rng: random.Random, pf: int, length: int = 14) -> List[tuple]:
     """A life-cycle script over 3 slots and 2 files: learn steps interleaved with clone / mutate / save / load, so that
-    every life-cycle operation is directly followed by learn steps of the agent it produced."""
+    every life-cycle operation is directly followed by learn steps of the agent it produced.  `length` bounds the
+    number of operations (approximately)."""
     ops: List[tuple] = [("create", 1)]
     alive = {1}
     saved = set()
     bid = rng.randrange(50)
-    for _ in range(pf + 1):
-        bid += 1
-        ops.append(("learn", 1, bid))
+
+    def learns(a, k):
+        nonlocal bid
+        for _ in range(k):
+            bid += 1
+            ops.append(("learn", a, bid))
+
+    learns(1, pf + 1)
+    segs = ["clone", "mutate", "mutate", "loadnew", "loadinto"]
+    rng.shuffle(segs)
     while len(ops) < length:
+        if not segs:
+            segs = ["clone", "mutate", "loadnew", "loadinto", "mutate"]
+            rng.shuffle(segs)
+        seg = segs.pop()
         a = rng.choice(sorted(alive))
-        x = rng.random()
         tgt = a
-        if x < 0.22 and len(alive) < 3:
+        if seg in ("clone", "loadnew") and len(alive) == 3:
+            seg = "mutate" if seg == "clone" else "loadinto"
+        if seg == "clone":
             c = min(s for s in (1, 2, 3) if s not in alive)
             ops.append(("clone", a, c))
             alive.add(c)
             tgt = c
-        elif x < 0.5:
+        elif seg == "mutate":
             ops.append(("mutate", a, rng.choice(["arch", "arch", "param", "act", "hp"])))
-        elif x < 0.62:
-            f = rng.choice([1, 2])
-            ops.append(("save", a, f))
-            saved.add(f)
-        elif x < 0.8 and saved:
+        else:
+            if not saved or rng.random() < 0.5:
+                f = rng.choice([1, 2])
+                ops.append(("save", a, f))
+                saved.add(f)
+                learns(a, rng.randint(0, pf))
             f = rng.choice(sorted(saved))
-            if len(alive) < 3 and rng.random() < 0.5:
+            if seg == "loadnew":
                 c = min(s for s in (1, 2, 3) if s not in alive)
                 ops.append(("loadnew", f, c))
                 alive.add(c)
                 tgt = c
             else:
                 ops.append(("loadinto", f, a))
-        for _ in range(rng.randint(1, pf + 1)):
-            bid += 1
-            ops.append(("learn", tgt, bid))
+        learns(tgt, rng.randint(1, pf + 1))
+        if rng.random() < 0.3:
+            learns(rng.choice(sorted(alive)), 1)
     return ops
